@@ -433,9 +433,25 @@ func sources(v ssa.Value) map[string]bool {
 			for _, st := range allocStores(x) {
 				walk(st.Val, d+1)
 			}
-			// stores through field addresses of the alloc (struct literals)
+			// stores through field addresses of the alloc (struct literals); calls that fill the cell through its address
 			if refs := x.Referrers(); refs != nil {
 				for _, in := range *refs {
+					var filler []ssa.Instruction
+					switch y := in.(type) {
+					case *ssa.Call:
+						filler = append(filler, y)
+					case *ssa.MakeInterface:
+						if r3 := y.Referrers(); r3 != nil {
+							filler = append(filler, *r3...)
+						}
+					}
+					for _, fi := range filler {
+						if call, ok := fi.(*ssa.Call); ok {
+							if cal := call.Call.StaticCallee(); cal != nil {
+								out["call:"+cal.Name()] = true
+							}
+						}
+					}
 					if fa, ok := in.(*ssa.FieldAddr); ok {
 						if r2 := fa.Referrers(); r2 != nil {
 							for _, in2 := range *r2 {
